@@ -838,8 +838,11 @@ func c10Exec(c c10Case, budget time.Duration) (r c10Result, over string) {
 		case r = <-ch:
 			return r, ""
 		case <-tick.C:
-			if c10ThreadCPU(tid) > budget || time.Since(start) > 60*budget {
+			if c10ThreadCPU(tid) > budget {
 				return r, "time"
+			}
+			if time.Since(start) > 60*budget {
+				return r, "wall"
 			}
 			if c10HeapBytes() > c10HeapLimit {
 				return r, "memory"
@@ -863,7 +866,7 @@ func c10Budget(n int) time.Duration {
 	return base
 }
 
-var c10Inconclusive, c10Leaked atomic.Int64
+var c10Inconclusive, c10Leaked, c10Slow atomic.Int64
 
 // c10Slim is the case as it is written to replay files (everything needed to re-run it, nothing derived).
 func c10Slim(c c10Case) c10Case {
@@ -944,8 +947,8 @@ func propC10(t veriflib.TB, c c10Case) {
 		r, over = c10Exec(c, budget)
 		if over == "memory" {
 			c10HandleMemory(facet, c)
-		} else if over == "time" {
-			c10HandleTimeout(t, facet, c, budget)
+		} else if over != "" {
+			c10HandleTimeout(t, facet, c, budget, over)
 			return
 		}
 	}
@@ -987,7 +990,7 @@ func c10HandleMemory(facet string, c c10Case) {
 }
 
 // c10HandleTimeout: a timeout counts only if it reproduces three times with a 10x budget.
-func c10HandleTimeout(t veriflib.TB, facet string, c c10Case, budget time.Duration) {
+func c10HandleTimeout(t veriflib.TB, facet string, c c10Case, budget time.Duration, first string) {
 	dump := make([]byte, 1<<20)
 	dump = dump[:runtime.Stack(dump, true)]
 	stuck := c10StuckFrames(string(dump))
@@ -1010,7 +1013,7 @@ func c10HandleTimeout(t veriflib.TB, facet string, c c10Case, budget time.Durati
 		go func() {
 			defer wg.Done()
 			switch _, over := c10Exec(c, 10*budget); over {
-			case "time":
+			case "time", "wall":
 				hung.Add(1)
 			case "memory":
 				mem.Add(1)
@@ -1023,9 +1026,21 @@ func c10HandleTimeout(t veriflib.TB, facet string, c c10Case, budget time.Durati
 		c10HandleMemory(facet, c)
 	}
 	if hung.Load() < 3 {
+		// kept for inspection next to the failure files, under a name the driver does not treat as a failure
+		if dir := os.Getenv("VERIF_FAIL_DIR"); dir != "" {
+			os.MkdirAll(dir, 0o755)
+			os.WriteFile(filepath.Join(dir, fmt.Sprintf("slow-%s-%d.json.txt", os.Getenv("VERIF_SHARD"), c10Slow.Add(1))), []byte(veriflib.JSON(c10Slim(c))), 0o644)
+		}
+		if first == "time" {
+			// CPU time is not affected by machine load: the case needs more than the budget but terminates within
+			// 10x of it. Slow, not a hang (CPU-bound slowness below the confirmation budget is not a violation).
+			veriflib.Excluded(facet, fmt.Sprintf("slow case: more than %v of CPU time, finished within %v (stuck sample: %s)", budget, 10*budget, stuck))
+			fmt.Printf("C10 slow case: %s needed more than %v of CPU time but finished within %v (%d/3 re-runs timed out)\n", facet, budget, 10*budget, hung.Load())
+			return
+		}
 		c10Inconclusive.Add(1)
-		veriflib.Excluded(facet, "timeout that did not reproduce 3x with 10x budget (inconclusive)")
-		fmt.Printf("C10 INCONCLUSIVE: %s timeout reproduced only %d/3 times\n", facet, hung.Load())
+		veriflib.Excluded(facet, "wall-clock timeout that did not reproduce 3x with 10x budget (inconclusive)")
+		fmt.Printf("C10 INCONCLUSIVE: %s wall-clock timeout reproduced only %d/3 times\n", facet, hung.Load())
 		return
 	}
 	msg := fmt.Sprintf("hang (key C10-hang-%s): the case did not return within %v of CPU time and again 3 times within %v; stuck in: %s; target=%s url=%q ct=%q status=%d body=%s",
